@@ -521,6 +521,28 @@ impl Session {
 
         let peer = self.peers.get_mut(addr).ok_or(Error::PeerNotFound)?;
         let cmd = peer.handle_bitfield(chosen_index, unchoked_num);
+
+        // Own choke state changes must reach the peer in the order they are made, so this one is
+        // announced through the same (broadcast) channel as the changes made by the rotation
+        let cmd = match cmd {
+            BitfieldCmd::SendState {
+                with_am_unchoked: true,
+                am_interested,
+            } => {
+                let mut am_choked_map: HashMap<String, bool> = HashMap::new();
+                am_choked_map.insert(addr.clone(), false);
+                let _ = self
+                    .general_channels
+                    .broad
+                    .send(BroadCmd::SendOwnState { am_choked_map });
+
+                BitfieldCmd::SendState {
+                    with_am_unchoked: false,
+                    am_interested,
+                }
+            }
+            cmd => cmd,
+        };
         #[cfg(rdest_verif)]
         let verif_reply = format!("{:?}", cmd);
         let _ = &resp_ch.send(cmd);
